@@ -293,6 +293,33 @@ def exc_value(name):
     return ExcVal(ExtClass("builtins." + name if "." not in name else name), ())
 
 
+_DOMAINS = None
+STRICT_DOMAINS = True
+
+
+def _call_domains():
+    """baseline/call_domains.json (tools/mkdomains.py): parameters every verified case of a contract binds to constants"""
+    global _DOMAINS
+    if _DOMAINS is None:
+        import json
+        import os
+        from . import VERIF
+        try:
+            _DOMAINS = json.load(open(os.path.join(VERIF, "baseline", "call_domains.json")))
+        except (OSError, ValueError):
+            _DOMAINS = {}
+    return _DOMAINS
+
+
+def _outside_domain(ctx, ctr, site, p_, v_, allowed):
+    msg = (f"call {site} passes {p_}={v_!r}; the contract of {ctr.qualname} was verified for {p_} in "
+           f"{{{', '.join(allowed)}}} only")
+    if STRICT_DOMAINS:
+        from .ctx import Undecided
+        raise Undecided(msg)
+    ctx.note("OUTSIDE VERIFIED DOMAIN (contract used as an assumption there): " + msg)
+
+
 def apply_contract(I, ctr, fv, values):
     """Use the contract of a callee at a call site: check pre, branch on raise conditions,
     return the specified result."""
@@ -302,6 +329,15 @@ def apply_contract(I, ctr, fv, values):
     if ctr.assumed:
         ctx.note(f"ASSUMED (not verified) contract used for {ctr.target}")
     site = f"{callee}@{'>'.join(ctx.frames[-2:])}"
+    dom = _call_domains().get(ctr.target)
+    if dom and not ctr.assumed:
+        for p_, allowed in dom.items():
+            if p_ not in values:
+                continue
+            v_ = values[p_]
+            inside = (v_ is None or isinstance(v_, (bool, str, int))) and repr(v_) in allowed
+            if not inside:
+                _outside_domain(ctx, ctr, site, p_, v_, allowed)
     if ctr.pre is not None:
         ctx.prove(f"call-pre:{site}", "call-pre", ctr.pre(A))
     for (ename, cond) in ctr.raises:
